@@ -50,6 +50,8 @@ type Contract struct {
 	ParamNames []string // for interface / functype contracts: names given in the header
 	Ghost     []GhostUpd
 	Timeout   int
+	Nonlinear bool
+	Quant     bool
 }
 
 type GhostUpd struct {
@@ -444,6 +446,14 @@ func parseSpecFile(path, pkg string) (*SpecFile, error) {
 		case "noinline":
 			if cur != nil {
 				cur.NoInline = true
+			}
+		case "arith":
+			if cur != nil {
+				cur.Nonlinear = p.text == "nonlinear"
+			}
+		case "quantifiers":
+			if cur != nil {
+				cur.Quant = p.text == "on"
 			}
 		case "timeout":
 			if cur != nil {
